@@ -300,6 +300,7 @@ func checkC10(c *Check) {
 		c.Anchor("route.Leaf / matchStyleStatic")
 		return
 	}
+	var r6 []staticImpl
 	for _, fn := range p.Implementations(leafN.Underlying().(*types.Interface), "Static") {
 		key := p.FuncKey(fn)
 		var rets []*ssa.Return
@@ -383,5 +384,140 @@ func checkC10(c *Check) {
 			}
 			c.Bad(key+":ancestors-static", p.FuncPos(fn), "a leaf below a non-static ancestor can be Static(): its route text would answer for a dynamic route", blockPath(pp))
 		}
+		r6 = append(r6, staticImpl{fn, mayTrue})
 	}
+
+	// ---- R6 the tree's answer for the route text is this leaf
+	c.Rule("R6", "E7 key agreement + E1 guard-cut", "two static leaves that admit the same text can coexist in one list only if the duplicate test of addLeaf uses a finer key than the match (it does: Segment.String() carries the '?' of an optional segment, the literal does not); then Static() must be false for a leaf that has an earlier sibling with the same literal, because the tree prefers the earlier one", 1)
+	al := p.Fn("route", "addLeaf")
+	if al == nil {
+		c.Anchor("route.addLeaf")
+		return
+	}
+	// (A) is the duplicate key of addLeaf the text a static leaf matches?
+	dupOnLiteral := false
+	allInstrs(al, func(in ssa.Instruction) {
+		if b, ok := in.(*ssa.BinOp); ok && b.Op == token.EQL {
+			lit := func(v ssa.Value) bool {
+				return vCall("strings.TrimLeft", vAny, vConstStr("/?"))(v) || vFieldNamed("literals")(v)
+			}
+			if lit(b.X) && lit(b.Y) {
+				dupOnLiteral = true
+			}
+		}
+	})
+	for _, si := range r6 {
+		fn, mayTrue := si.fn, si.mayTrue
+		key := p.FuncKey(fn)
+		if dupOnLiteral {
+			c.OK(key+":unique-literal", p.FuncPos(al), "addLeaf rejects a second leaf with the same literal text: at most one static leaf admits a given segment", 1)
+			continue
+		}
+		recv := vParam(fn, 0)
+		siblings := vCall("(route.Tree).getLeaves", vField(recv, "parent"))
+		var loads []ssa.Instruction
+		var elems []ssa.Value
+		allInstrs(fn, func(in ssa.Instruction) {
+			if v, ok := in.(ssa.Value); ok {
+				if _, isEl := elemIndex(v, siblings); isEl {
+					if _, isLoad := in.(*ssa.UnOp); isLoad {
+						loads = append(loads, in)
+						elems = append(elems, v)
+					}
+				}
+			}
+		})
+		if len(loads) == 0 {
+			c.Bad(key+":earlier-sibling", p.FuncPos(fn), "Static() does not look at the leaf's siblings although an optional leaf with the same literal can precede it (Get(\"/a/?b\") then Get(\"/a/b\")): the shortcut serves \"/a/b\" with the later route while the tree picks the earlier one")
+			continue
+		}
+		fromElem := func(v ssa.Value) bool {
+			v = strip(v)
+			for {
+				switch x := v.(type) {
+				case *ssa.Extract:
+					v = strip(x.Tuple)
+					continue
+				case *ssa.TypeAssert:
+					v = strip(x.X)
+					continue
+				case *ssa.ChangeInterface:
+					v = strip(x.X)
+					continue
+				}
+				break
+			}
+			for _, e := range elems {
+				if v == e {
+					return true
+				}
+			}
+			return false
+		}
+		sameText := cCmp(token.EQL, vField(fromElem, "literals"), vField(recv, "literals"))
+		shadow := edgesWhere(fn, sameText, true)
+		distinct := edgesWhere(fn, sameText, false)
+		self := edgesWhere(fn, cCmp(token.EQL, fromElem, func(v ssa.Value) bool {
+			mi, ok := strip(v).(*ssa.MakeInterface)
+			return (ok && recv(mi.X)) || recv(v)
+		}), true)
+		notStatic := EdgeSet{}
+		for _, b := range fn.Blocks {
+			if ifi, ok := b.Instrs[len(b.Instrs)-1].(*ssa.If); ok {
+				if ex, ok := strip(ifi.Cond).(*ssa.Extract); ok && ex.Index == 1 {
+					if ta, ok := ex.Tuple.(*ssa.TypeAssert); ok && fromElem(ta) {
+						notStatic[Edge{b, 1}] = true
+					}
+				}
+			}
+		}
+		ok := len(shadow) > 0
+		why := "no comparison of a sibling's literal with the leaf's own"
+		if ok {
+			// (1) an equal earlier sibling never leads to a true verdict
+			for e := range shadow {
+				succ := e.B.Succs[e.S]
+				if in, _ := (Query{Fn: fn}).Reach(succ, 0, mayTrue); in != nil {
+					ok, why = false, "an earlier sibling with the same literal does not force the verdict false"
+				}
+			}
+		}
+		if ok {
+			// (2) every sibling before the leaf itself is examined: from the element load, the next
+			// element or a true verdict is reached only through self-identity, a sibling of another
+			// kind, or the literal comparison having failed
+			cut := EdgeSet{}
+			for e := range self {
+				cut[e] = true
+			}
+			for e := range notStatic {
+				cut[e] = true
+			}
+			for e := range distinct {
+				cut[e] = true
+			}
+			for e := range shadow {
+				cut[e] = true
+			}
+			for _, ld := range loads {
+				tgt := func(in ssa.Instruction) bool { return mayTrue(in) || in == ld }
+				if in, _ := (Query{Fn: fn, Cut: cut}).After(ld, tgt); in != nil {
+					ok, why = false, "a sibling can be passed over without its literal being compared"
+				}
+			}
+			// (3) the scan is on every path to a true verdict
+			if in, _ := (Query{Fn: fn, Avoid: func(in ssa.Instruction) bool {
+				v, isV := in.(ssa.Value)
+				return isV && siblings(v)
+			}}).FromEntry(mayTrue); in != nil {
+				ok, why = false, "a true verdict is reachable without the sibling scan"
+			}
+		}
+		c.Cond(ok, key+":earlier-sibling", p.FuncPos(fn), "true only when no earlier sibling has the same literal (scan of parent.getLeaves() up to the leaf itself)", "Static() can be true for a leaf that an earlier optional leaf with the same literal shadows in the tree (Get(\"/a/?b\") then Get(\"/a/b\")): "+why)
+	}
+}
+
+type staticImpl struct {
+	fn      *ssa.Function
+	mayTrue func(ssa.Instruction) bool
 }
